@@ -27,9 +27,10 @@ class Sym(Val):
     """Unknown value.  `truthy` may be known; `origin` is the provenance tree
     ('call', fname, args) | ('method', recv, name, args) | ('binop', op, l, r) | ('input', name) ..."""
 
-    __slots__ = ("tag", "truthy", "origin", "typ", "notnone")
+    __slots__ = ("tag", "truthy", "origin", "typ", "notnone", "distinct")
 
-    def __init__(self, tag: str, truthy=None, origin=None, typ=None, notnone=None):
+    def __init__(self, tag: str, truthy=None, origin=None, typ=None, notnone=None, distinct=False):
+        self.distinct = distinct  # a generic user-chosen name, different from every constant in the code
         self.tag = tag
         self.truthy = truthy
         self.origin = origin
